@@ -238,7 +238,16 @@ inline void prolonged_pause_impl() {
 }
 #endif
 
+#if ONETBB_VERIF
+extern "C" int vf_hook_backoff(int);
+#endif
+
 inline void prolonged_pause() {
+#if ONETBB_VERIF
+    // verification build: no time-stamp-counter loop, one yield point instead
+    machine_pause(1);
+    return;
+#endif
 #if __TBB_WAITPKG_INTRINSICS_PRESENT
     if (governor::wait_package_enabled()) {
         std::uint64_t time_stamp = machine_time_stamp();
@@ -275,6 +284,17 @@ public:
         , my_yield_count{}
     {}
     bool pause() {
+#if ONETBB_VERIF
+        // verification build: short deterministic back-off so that idle threads reach out_of_work()/sleep quickly
+        if (vf_hook_backoff(0) > 0) {
+            prolonged_pause();
+            if (my_yield_count++ >= vf_hook_backoff(0)) {
+                my_yield_count = vf_hook_backoff(0);
+                return true;
+            }
+            return false;
+        }
+#endif
         prolonged_pause();
         if (my_pause_count++ >= my_pause_threshold) {
             my_pause_count = my_pause_threshold;
